@@ -242,8 +242,11 @@ pub fn parse_stream(bytes: &[u8], head_requests: &[bool], eof: bool) -> Parsed {
         let he = match head_end {
             Some(h) => h,
             None => {
-                // header block incomplete
-                p.responses.push(r);
+                // header block incomplete; a partially received interim (1xx)
+                // response is not the beginning of the final one
+                if !(100..200).contains(&r.status) {
+                    p.responses.push(r);
+                }
                 return p;
             }
         };
